@@ -1360,8 +1360,16 @@ def gen_C09(rng, tier):
             t = (E.u16(typ) + E.u16(s % 2) + E.u32(s) + bytes(body))[:n]
             cases.append("hdr " + hx(E.header([t, E.htag(6, 0, b"")])))
             count(dist, "tag_sizes")
+    # the header-crate structures obtained from a slice (ref_from_slice): declared sizes around the slice length
+    for h in (2, 4):
+        hs = 16 if h == 4 else 8
+        for n in range(hs, 65, 8):
+            for d in range(max(0, n - hs - 2), n + hs + 10):
+                cases.append("c14 %d 0 %s" % (h, hx((hdr_bytes(h, d, rng) + marker(n, start=n + d))[:n])))
+                count(dist, "from_slice")
     return cases, dict(
-        rule="hdr: seeded header regions (30% of the tags with wrong sizes: below 8, not matching the kind, beyond the region); for "
+        rule="c14: header-crate structures from slices of 8k bytes with declared sizes around the slice length; "
+             "hdr: seeded header regions (30% of the tags with wrong sizes: below 8, not matching the kind, beyond the region); for "
              "every kind every tag size 0..40 and huge ones; enum-typed fields always in range. Region placed against guard pages "
              "at its end and at its start. distinct_nontrivial = distinct (domain, model transcript) pairs.",
         dist=dist, exhaustive=False)
